@@ -322,6 +322,13 @@ func famRawXML(o *Out, r *RNG, thorough bool) {
 		{"CurrentUserPrincipal-unauth", `<current-user-principal xmlns="DAV:"><unauthenticated/></current-user-principal>`, func() interface{} { return &internal.CurrentUserPrincipal{} }},
 		{"Error", `<D:error` + dav + `><C:valid-calendar-data xmlns:C="urn:ietf:params:xml:ns:caldav"/><D:x a="b">t</D:x></D:error>`, func() interface{} { return &internal.Error{} }},
 		{"wrong-name", `<D:getetag` + dav + `>"a"</D:getetag>`, func() interface{} { return &internal.DisplayName{} }},
+		// no default namespace anywhere: an unprefixed child is in NO namespace (and must stay there)
+		{"ResourceType-nons-child", `<D:resourcetype` + dav + `><collection/><D:collection/></D:resourcetype>`, func() interface{} { return &internal.ResourceType{} }},
+		{"Error-nons-child", `<D:error` + dav + `><valid-calendar-data/><D:lock-token-submitted><href>/x</href></D:lock-token-submitted></D:error>`, func() interface{} { return &internal.Error{} }},
+		{"CurrentUserPrincipal-nons-href", `<D:current-user-principal` + dav + `><href>/p/</href></D:current-user-principal>`, func() interface{} { return &internal.CurrentUserPrincipal{} }},
+		{"ResourceType-redeclared", `<D:resourcetype` + dav + ` xmlns="urn:outer"><collection/><x xmlns="DAV:"><collection/></x></D:resourcetype>`, func() interface{} { return &internal.ResourceType{} }},
+		// attribute values with TAB, LF and CR given as character references: they are data
+		{"Error-attr-charrefs", `<D:error` + dav + `><D:x sep="a&#9;b" eol="&#13;&#10;" text="first&#10;second">t</D:x></D:error>`, func() interface{} { return &internal.Error{} }},
 	}
 	for _, tc := range cases {
 		emitRawTyped(o, tc)
